@@ -330,7 +330,7 @@ prop('C17', opts={'mode': 'value'},
      harnesses=[{'name': h, 'types': [()], 'params': {'quick': {'Rates': len(RATES)}, 'thorough': {'Rates': len(RATES)}},
                  'splits': {'quick': [{'rate': i} for i in RATES_Q], 'thorough': [{'rate': i} for i in range(len(RATES))]},
                  'covers': [c]} for h, c in (('C17_Duration', 'class'), ('C17_Events', 'class'), ('C17_Junctions', 'junctions'))],
-     bounds={'quick': 'rates %s Hz (concrete configurations); every event count 0..rate*86400 and every duration 0..24 h (case split over bit length, value symbolic; exact integer encoding of the IEEE multiplication and of math.Round): accuracy, order inside each class, Events(Duration(n)) == n for rates <= 1 MHz; bit-length junctions concretely' % [RATES[i] for i in RATES_Q],
+     bounds={'quick': 'rates %s Hz (concrete configurations); every event count 0..rate*86400 and every duration 0..24 h (case split over bit length, value symbolic; exact integer encoding of the IEEE multiplication and of math.Round): accuracy, one-step monotonicity (f(n) <= f(n+1) for every n, which gives non-decreasing by induction), Events(Duration(n)) == n for rates <= 1 MHz; bit-length junctions concretely' % [RATES[i] for i in RATES_Q],
              'thorough': 'all %d configured rates: %s' % (len(RATES), RATES)},
      level_note='The rate is concrete on every path: a symbolic rate makes 1e9/f*n a product of two symbolic doubles, which neither the integer encoding (non-linear) nor bit-blasted floating point (time-out) decides; rates outside the list are outside the claim. The float-rounding allowance is 2^-51 relative (two roundings).',
      technique='SSA-to-SMT symbolic execution of the real code with an exact linear-integer encoding of the IEEE operations; z3; native replay',
